@@ -1,4 +1,20 @@
+From Coq Require Import List NArith.
+Import ListNotations.
 From HS Require Export Guards.
-Ltac gunf := unfold g_safety_rule_1, g_safety_rule_2, g_can_extend, g_can_extend_hq, g_commit_skip,
+(* one push on the commit deque (front of the deque = head of the list) *)
+Definition dq_push {A} (front : bool) (x : A) (dq : list A) : list A :=
+  if front then x :: dq else dq ++ [x].
+(* the deque discipline of commit() as a parameter of the node model: the theorems are about [src_dq], the
+   values regenerated from the source; [pinned_dq] is commit() as on the pinned tree before the repair
+   (ancestors and head pushed at the front, no early stop, drained from the back) and is used only by the
+   refutation witnesses of Witness.v *)
+Record DqCfg := mkDq { dq_stop : N -> N -> bool; dq_anc_front : bool; dq_head_front : bool; dq_pop_back : bool; dq_head_first : bool }.
+Definition src_dq : DqCfg := mkDq g_commit_stop g_commit_anc_front g_commit_head_front g_commit_pop_back g_commit_head_first.
+Definition pinned_dq : DqCfg := mkDq (fun _ _ => false) true true true false.
+Ltac gunf0 := unfold g_safety_rule_1, g_safety_rule_2, g_can_extend, g_can_extend_hq, g_commit_skip,
   g_commit_walk, g_update_high_qc, g_vote_stale, g_timeout_stale, g_tc_stale, g_advance_guard,
-  g_advance_next, g_two_chain, g_round_gate, g_quorum_consensus, g_quorum_mempool in *.
+  g_advance_next, g_two_chain, g_round_gate, g_quorum_consensus, g_quorum_mempool,
+  g_commit_stop, g_commit_anc_front, g_commit_head_front, g_commit_pop_back, g_commit_head_first in *.
+
+Ltac gunf := gunf0; unfold dq_push in *.
+Ltac gunfdq := unfold src_dq in *; cbn [dq_stop dq_anc_front dq_head_front dq_pop_back dq_head_first] in *; gunf.
